@@ -203,6 +203,10 @@ func (fr *FuncRun) flushBackEdges() {
 	for _, k := range order {
 		merged := fr.merge(groups[k])
 		fr.checkInvariants(k.f, k.head, merged, "inv-preserved")
+		for i, al := range k.f.autoLock[k.head] {
+			hh := fr.w.HeldHeap()
+			fr.assertObNoAssume(merged, "inv-preserved", fmt.Sprintf("loop%d:lockstate:%d", fr.loopOrdinal(k.f, k.head), i+1), eq(sel(fr.heapCur(merged, hh), al.addr), al.preVal), k.head.Instrs[0].Pos(), "every iteration leaves the locks it takes as they were at loop entry")
+		}
 	}
 }
 
@@ -367,7 +371,7 @@ func (fr *FuncRun) pushEdge(f *Frame, incoming map[*ssa.BasicBlock][]edgeIn, fro
 			}
 			return
 		}
-		if len(fr.invariantsOf(f, to)) > 0 {
+		if len(fr.invariantsOf(f, to)) > 0 || len(f.autoLock[to]) > 0 {
 			fr.pendingBack = append(fr.pendingBack, pendingBackEdge{f: f, head: to, st: ns})
 		}
 		return
@@ -595,7 +599,12 @@ func (fr *FuncRun) enterLoop(f *Frame, head *ssa.BasicBlock, body map[*ssa.Basic
 					framed = false
 					break
 				}
-				// not statically fresh: fall back to the weak frame and make each such write prove its freshness
+				// not statically fresh: with loop invariants at hand fall back to the weak frame and make each
+				// such write prove its freshness; without invariants there is no frame for this heap
+				if !fr.loopReasonsAboutFreshness(f, head) {
+					framed = false
+					break
+				}
 				weak = true
 			}
 		}
@@ -633,9 +642,30 @@ func (fr *FuncRun) enterLoop(f *Frame, head *ssa.BasicBlock, body map[*ssa.Basic
 		}
 		fr.assume(cur, fmt.Sprintf("(forall ((%s Int)) (! (=> %s (= (select %s %s) (select %s %s))) :pattern ((select %s %s)) :pattern ((select %s %s))))", a, and(conds...), cur.heaps[h], a, fr.heapCur(pre, h), a, cur.heaps[h], a, fr.heapCur(pre, h), a))
 	}
+	// 4b. lock state: a lock the body acquires and releases is, at the loop head, in the state it had on entry.
+	// Assumed here for the generic iteration and checked on every back edge (inv-preserved:loopN:lockstate).
+	if hh := w.HeldHeap(); cur.heaps[hh] != "" && fr.heapCur(pre, hh) != cur.heaps[hh] {
+		seen := map[string]bool{}
+		var autos []autoLockInv
+		for _, aw := range alog[hh] {
+			if !invariantTerm(aw.term, marker) || seen[aw.term] {
+				continue
+			}
+			seen[aw.term] = true
+			preVal := fr.def(sInt, sel(fr.heapCur(pre, hh), aw.term))
+			fr.assume(cur, eq(sel(cur.heaps[hh], aw.term), preVal))
+			autos = append(autos, autoLockInv{addr: aw.term, preVal: preVal})
+		}
+		if f.autoLock == nil {
+			f.autoLock = map[*ssa.BasicBlock][]autoLockInv{}
+		}
+		f.autoLock[head] = autos
+	}
 	// 5. assume invariants
 	fr.assumeInvariants(f, head, cur, pre)
 }
+
+type autoLockInv struct{ addr, preVal string }
 
 func cellType(c cellKey) types.Type {
 	switch x := c.v.(type) {
@@ -1482,4 +1512,11 @@ func rangeIntBound(head *ssa.BasicBlock, iter *ssa.Alloc) ssa.Value {
 		return n
 	}
 	return nil
+}
+
+// loopReasonsAboutFreshness: the weak frame (entry-state objects unchanged, every other write proved to hit an
+// object of this function) is used for loops declared `freshwrites` in the contract; any other loop that writes
+// through loop-variant references to objects that are not statically fresh has no automatic frame for that heap.
+func (fr *FuncRun) loopReasonsAboutFreshness(f *Frame, head *ssa.BasicBlock) bool {
+	return f.contract != nil && f.contract.WeakFrame[fr.loopOrdinal(f, head)]
 }
